@@ -461,6 +461,11 @@ def _run(c, d, rebound, drv, open_exe, app_exe, W):
              if v_ or k_ in ("Simulationarchive.__iter__", "Simulationarchive.__len__", "Simulationarchive.__getitem__")}
     elog = os.path.join(W, "entry.log")
     ac.install_entry_trace(rebound, elog, cent, pyent)
+    # extracted: field table of the library under test against the struct mirror (a scalar dtype smaller than the member
+    # truncates it in every snapshot: counters and cadence state above 2^32 do not survive a restart)
+    c.cov["field_table"] = ac.image_table_report(rebound)
+    if c.cov["field_table"]["dtype_size_mismatch"]:
+        c.corr_break("field table dtype size differs from the struct member size [name, id, dtype bytes, member bytes]: %s" % c.cov["field_table"]["dtype_size_mismatch"][:4])
     v, probe = detect_variant(c, rebound, open_exe, W)
     V = vstr(v)
     c.cov["source_variant"] = {"F1_fixed": v[0], "F11_fixed": v[1], "F2_fixed": v[2], "F19_fixed": v[3], "F18_particles_bitwise": v[4], "F5_varconfig_memberwise": v[5], "probe": probe}
@@ -782,21 +787,23 @@ def _run(c, d, rebound, drv, open_exe, app_exe, W):
     # ------------------------------------------------------------------ the contrived fake-trailer image (once per run)
     fake_trailer_case(c, rebound, drv, V, os.path.join(W, "fake"), st)
     # ------------------------------------------------------------------ automatic cadence: crash + restart
-    na = 12 if c.thorough else 4
-    for i in range(na):
-        if time.time() - t_start > budget:
-            break
-        auto_restart_case(c, rebound, open_exe, c.rng.fork(), os.path.join(W, "auto%d" % i), st, dims, i, cad_drv=drv)
-    auto_restart_case(c, rebound, open_exe, c.rng.fork(), os.path.join(W, "autoshort"), st, dims, 0, short=True, cad_drv=drv)
+    # covering array over integrator x cadence mode x direction x counter magnitude; the whole array in every run (thorough: twice)
+    au_tracker = ac.PairTracker(C07_AUTO_FACTORS, noexc)
+    au_rows = ac.covering_array(C07_AUTO_FACTORS, noexc, SplitMix(20261001), 60)
+    c.cov["auto_restart_array_rows"] = len(au_rows)
+    for i, spec in enumerate(au_rows * (2 if c.thorough else 1)):
+        auto_restart_case(c, rebound, open_exe, c.rng.fork(), os.path.join(W, "auto%d" % i), st, dims, spec, cad_drv=drv, tracker=au_tracker)
     wall_restart_case(c, rebound, c.rng.fork(), os.path.join(W, "autowall"), st, dims)
     dims["restart:manual_history"] = st["restarts"] - st["auto_restarts"]
     dims["restart:chain"] = st["chains"]
     dims["restart:model_bytes_equal"] = st["restart_bytes_equal"]
     dims["nofake_trailer_evaluated"] = st["nofake_true"] + st["nofake_false"]
     dims["fake_trailer_replayed"] = 1 if st.get("fake_trailer") else 0
-    ip_, rp_ = img_tracker.report(), rs_tracker.report()
-    c.cov["pairs"] = dict(covered=ip_["covered"] + rp_["covered"], total=ip_["total"] + rp_["total"], excluded=ip_["excluded"] + rp_["excluded"],
-                          crash_images=ip_, restarts=rp_,
+    ip_, rp_, ap_ = img_tracker.report(), rs_tracker.report(), au_tracker.report()
+    if ap_["covered"] < ap_["total"]:
+        c.broken.append("automatic-cadence restart factor pairs not covered: %s" % ap_["missing"][:12])
+    c.cov["pairs"] = dict(covered=ip_["covered"] + rp_["covered"] + ap_["covered"], total=ip_["total"] + rp_["total"] + ap_["total"], excluded=ip_["excluded"] + rp_["excluded"],
+                          crash_images=ip_, restarts=rp_, auto_restarts=ap_,
                           restart_triples=dict(covered=len(triples_done), total=len(tri), missing=sorted(set(tri) - triples_done)[:20]))
     c.cov["pairs_exclusions"] = ["variations x integrator not in {ias15, leapfrog}: the other integrators reject or ignore variational configurations",
                                  "lazy_vanish x none: no lazily allocated arrays", "grow_first x {none, leapfrog}: no integrator arrays appear after the first snapshot",
@@ -1130,17 +1137,31 @@ def fake_trailer_case(c, rebound, drv, V, wd, st):
 K_DUP = "cadence:lagging-next-duplicate"
 
 
-def auto_restart_case(c, rebound, open_exe, rng, wd, st, dims, idx, short=False, cad_drv=None):
-    """automatic cadence: uninterrupted run vs crash in the middle + restart (cadence state is persisted)"""
+C07_AUTO_FACTORS = {
+    "integrator": ["whfast", "leapfrog", "saba", "eos", "janus"],
+    "mode": ["interval", "step", "interval_short"],          # interval_short: interval < |dt| (prescribed time lags)
+    "direction": ["fwd", "back"],
+    "counter": ["small", "beyond_2^32"],                     # steps_done / simulationarchive_next_step below / above 2^32 at the restart
+}
+
+
+def auto_restart_case(c, rebound, open_exe, rng, wd, st, dims, spec, cad_drv=None, tracker=None):
+    """automatic cadence: uninterrupted run vs crash in the middle + restart (cadence state is persisted).
+    spec = one row of the covering array over C07_AUTO_FACTORS"""
     os.makedirs(wd, exist_ok=True)
-    integ = rng.choice(["whfast", "leapfrog", "saba", "eos", "janus"])
-    mode = ["interval", "step", "interval", "step"][idx % 4]
-    back = (idx % 4 == 2) or (idx % 4 == 3 and idx >= 4)
+    integ = spec["integrator"]
+    short = spec["mode"] == "interval_short"
+    mode = "interval" if short else spec["mode"]
+    back = spec["direction"] == "back"
+    big = spec["counter"] != "small"
     dt = -0.01 if back else 0.01
     val = abs(dt) * rng.choice([2.0, 3.0, 5.5]) if mode == "interval" else rng.randint(2, 5)
     tmax = dt * rng.randint(30, 60)
     if short:          # interval shorter than the step: the persisted prescribed time lags behind t
-        mode, val, tmax = "interval", abs(dt) * 0.4, dt * rng.randint(8, 14)
+        val, tmax = abs(dt) * 0.4, dt * rng.randint(8, 14)
+    # 64-bit counters: the run has (as far as the struct knows) taken almost 2^32 steps; in step mode the persisted
+    # simulationarchive_next_step passes 2^32 with the second snapshot
+    steps0 = (2 ** 32 - (val if mode == "step" else 3) - 1) if big else 0
     parts = [ac.gen_particle(rng, star=True)] + [ac.gen_particle(rng) for _ in range(2)]
     full = os.path.join(wd, "full.bin")
 
@@ -1152,6 +1173,8 @@ def auto_restart_case(c, rebound, open_exe, rng, wd, st, dims, idx, short=False,
             sim.add(**p)
         sim.integrator = integ
         sim.dt = dt
+        if steps0:
+            sim.steps_done = steps0
         if mode == "interval":
             sim.save_to_file(full, interval=val)
         else:
@@ -1162,9 +1185,9 @@ def auto_restart_case(c, rebound, open_exe, rng, wd, st, dims, idx, short=False,
         return
     b = open(full, "rb").read()
     blobs = ac.parse_archive(b)
-    if len(blobs) < 4:
+    if len(blobs) < 5:
         return
-    j = rng.randint(2, len(blobs) - 1)
+    j = rng.randint(3 if big else 2, len(blobs) - 1)      # beyond_2^32: the snapshot restarted from (j-1 >= 2) persists next_step >= 2^32
     start = blobs[j - 1]["end"] - 12            # the write of blob j starts at the previous trailer
     end = blobs[j]["end"]
     k = rng.randint(0, end - start - 1)
@@ -1213,6 +1236,24 @@ def auto_restart_case(c, rebound, open_exe, rng, wd, st, dims, idx, short=False,
     if cad_drv and ac.fork_run(restart_traced) == 0 and os.path.exists(tj):
         rec = json.load(open(tj))
         n_after = len(ac.parse_archive(open(img2, "rb").read()))
+        # the cadence state the restarted run starts from = the state the uninterrupted run had when it wrote that snapshot:
+        # step mode: the model run over the step counter up to the snapshot; interval mode: the 8 bytes in the file (re-parser)
+        rj = ac.overlay(blobs[0]["recs"], blobs[j - 1]["recs"]) if j - 1 > 0 else blobs[0]["recs"]
+        if mode == "step":
+            sdj = struct.unpack("<Q", ac.rec_value(rj, ac.STEPS))[0]
+            mo = run_driver(cad_drv, ["cadstep %d %d %s" % (val, steps0, " ".join(str(x_) for x_ in range(steps0, sdj + 1)))])[0].split()
+            f136 = ac.rec_value(rj, 136)
+            if str(rec["pnext_step"]) != mo[1] or f136 is None or len(f136) != 8:
+                c.corr_break("persisted step cadence: the restarted run starts with simulationarchive_next_step = %d, the model's state when snapshot %d (steps_done %d) "
+                             "was written is %s; field 136 holds %s bytes in the file" % (rec["pnext_step"], j - 1, sdj, mo[1], None if f136 is None else len(f136)), dict(spec=spec, value=val))
+            else:
+                st["persisted_cadence_state_equal"] = st.get("persisted_cadence_state_equal", 0) + 1
+        else:
+            f48 = ac.rec_value(rj, 48)
+            if f48 is None or len(f48) != 8 or f48[::-1].hex() != rec["pnext"]:
+                c.corr_break("persisted interval cadence: the restarted run starts with simulationarchive_next = %s, the file holds %s" % (rec["pnext"], None if f48 is None else f48[::-1].hex()), dict(spec=spec, value=val))
+            else:
+                st["persisted_cadence_state_equal"] = st.get("persisted_cadence_state_equal", 0) + 1
         if mode == "interval":
             line = "%s %d %s %s %s %s" % ("cadrestartR" if ac.probe_cadence_variant(rebound, wd) else "cadrestart", -1 if dt < 0 else 1, rec["pint"], rec["pnext"], ac.hex64(val), " ".join(h for h, _ in rec["hb"]))
             want_next = rec["next"]
@@ -1228,11 +1269,13 @@ def auto_restart_case(c, rebound, open_exe, rng, wd, st, dims, idx, short=False,
             dims["tie:cadence_restart_model"] = dims.get("tie:cadence_restart_model", 0) + 1
             if flags[0] == "1":
                 st["cadence_restart_first_heartbeat_fires"] = st.get("cadence_restart_first_heartbeat_fires", 0) + 1
-    c.count(("auto-restart", mode, integ, back))
+    c.count(("auto-restart", mode, integ, back, big))
     dims["restart:auto_" + mode + ("_short" if short else "")] = dims.get("restart:auto_" + mode + ("_short" if short else ""), 0) + 1
     if back:
         dims["restart:auto_backward"] = dims.get("restart:auto_backward", 0) + 1
-    rep = dict(integrator=integ, mode=mode, value=val, tmax=tmax, particles=parts, crashed_blob=j, cut=k, rc=rc)
+    rep = dict(integrator=integ, mode=mode, value=val, tmax=tmax, particles=parts, crashed_blob=j, cut=k, rc=rc, steps_done_at_start=steps0, spec=spec)
+    if tracker is not None and rc == 0:
+        tracker.add(spec)
     if rc != 0:
         c.violation("auto-restart-died", "restart of an automatic archive from a crash image kills the process (status %s)" % rc, rep)
         return
